@@ -2,6 +2,7 @@
 import os
 
 from harness import common
+from harness import families
 from harness import genfun
 from harness import semrun
 
@@ -11,11 +12,21 @@ PROP = 'C04'
 def Cases(tier):
   n = int(os.environ.get('VERIF_N', 0)) or (150 if tier == 'quick' else 4000)
   rng = common.Rng(PROP)
-  return [genfun.Generate(rng, 'f%d' % i) for i in range(n)] + (
-      semrun.Reproducers(PROP))
+  cases = [genfun.Generate(rng, 'f%d' % i) for i in range(n)]
+  # directed shapes: made predicates with own rules / own limit, dependency
+  # order of functor applications
+  reps = 4 if tier == 'quick' else 60
+  for k in range(reps * len(families.C04_FAMILIES)):
+    name, fn = families.C04_FAMILIES[k % len(families.C04_FAMILIES)]
+    prog, query, feats = fn(rng)
+    cases.append({'id': 'd%d' % k, 'prog': prog, 'query': query,
+                  'stages': True, 'ordered': ['N'] if name == 'made_with_limit'
+                  else [], 'meta': {'features': feats}})
+  return cases + semrun.Reproducers(PROP)
 
 
-REQUIRED = ['make_fresh', 'make_same_functor_other_binding',
+REQUIRED = ['fam_made_with_own_rules', 'fam_made_with_limit',
+            'fam_make_order_chain', 'make_fresh', 'make_same_functor_other_binding',
             'make_same_functor_same_binding', 'make_functor_of_result',
             'make_two_args', 'make_arg_through_chain', 'make_arg_direct']
 
